@@ -64,6 +64,16 @@ class InstrB:
         return f"{self.op}({', '.join(map(repr, self.locs))})"
 
 
+class SignS:
+    """A shift known only by its sign."""
+
+    def __init__(self, neg, name="shift"):
+        self.neg, self.name = neg, name
+
+    def __repr__(self):
+        return f"{self.name}{'<0' if self.neg else '>=0'}"
+
+
 class OpRef:
     def __init__(self, name, generics):
         self.name, self.generics = name, generics
@@ -84,7 +94,8 @@ class EmitInterp(Interp):
             name = e["path"]["name"]
             segs = e["path"]["segs"]
             if len(segs) == 1 and segs[0]["args"] and not env.has(name):
-                gens = [g["s"] for g in segs[0]["args"] if g.get("t") != "TyInfer" and g.get("s") != "_"]
+                gens = [(g.get("s") if g.get("s") is not None else str(g.get("value")).lower()) for g in segs[0]["args"]
+                        if g.get("t") != "TyInfer" and g.get("s") != "_"]
                 return OpRef(name, gens)
             if len(segs) == 1 and not env.has(name) and name[0].islower():
                 return OpRef(name, [])
@@ -146,6 +157,12 @@ class EmitInterp(Interp):
         return super().equal(a, b, node)
 
     def binary(self, op, l, r, node):
+        if isinstance(l, SignS) and r == 0 and op in ("<", ">=", "<=", ">"):
+            if op == "<":
+                return l.neg
+            if op == ">=":
+                return not l.neg
+            raise Unanalysable("comparison of a shift known only by sign")
         if isinstance(l, OffS) and isinstance(r, int) and op in ("<", ">="):
             raise Unanalysable("sign of a symbolic shift")
         return super().binary(op, l, r, node)
@@ -575,21 +592,55 @@ def run_bc_fixed(res, ast):
     except Missing as m:
         res.missing("BC-FIXED", m)
         return
+    emit_params = [p_["pat"]["name"] for p_ in emit["sig"]["inputs"] if p_["t"] == "Arg"]
+
+    def emitted(ctor, operands, safe):
+        """Words pushed by emit's dispatching match for one abstract fixed-layout instruction."""
+        ei = EmitInterp()
+        env = Env()
+        env.bind(emit_params[0], "insts")
+        env.bind(emit_params[1], InstrB(ctor, operands))
+        env.bind(emit_params[2], safe)
+        ei.eval(ms[0], env)
+        return ei.words
+
+    OPERANDS = {"Scan": lambda neg: [OffS(0), SignS(neg)], "Mov": lambda neg: [SignS(neg)], "Inp": lambda neg: [OffS(0)], "Out": lambda neg: [OffS(0)],
+                "BrZ": lambda neg: [OffS(0), SignS(neg, "off")], "BrNZ": lambda neg: [OffS(0), SignS(neg, "off")]}
     for ctor, (fns, roles) in FIXED.items():
         if ctor not in arms:
             res.bad("BC-FIXED", f"{OPS}|emit|{ctor}", OPS, f"emit has no arm for Instr::{ctor}")
             continue
         a = arms[ctor]
         pvars = [e.get("name") if e["t"] == "PIdent" else None for e in a["pat"]["elems"]]
-        pushes = []
-        for m in walk_t(a["body"], "MethodCall"):
-            if m["method"] == "push" and m["args"] and m["args"][0]["t"] == "StructExpr" and m["args"][0]["path"]["name"] == "OpCode":
-                f = m["args"][0]["fields"][0]
-                pushes.append((f["member"], f["expr"], m))
-        # group: op pushes are alternatives (if/else), operand pushes follow
-        op_pushes = [p for p in pushes if p[0] == "op"]
-        operand_pushes = [p for p in pushes if p[0] != "op"]
-        opnames = sorted({path_name(p[1]) for p in op_pushes})
+        table = {}
+        layouts = set()
+        sem_err = None
+        for neg in (True, False):
+            for safe in (True, False):
+                try:
+                    ws = emitted(ctor, OPERANDS[ctor](neg), safe)
+                except (Unanalysable, Reached) as u:
+                    sem_err = str(u)
+                    continue
+                if ws and ws[0][0] == "op" and isinstance(ws[0][1], OpRef):
+                    table[(neg, safe)] = ws[0][1]
+                    def role_(v_):
+                        if isinstance(v_, OffS):
+                            return "cell"
+                        if isinstance(v_, SignS):
+                            return "shift" if v_.name == "shift" else "target-operand"
+                        if v_ == 0 and not isinstance(v_, bool):
+                            return "target0"
+                        return "other:" + repr(v_)
+                    layouts.add(tuple((f_, role_(v_)) for f_, v_ in ws[1:]))
+        if sem_err or len(layouts) != 1:
+            res.bad("BC-FIXED", f"{OPS}|emit|{ctor}|words", where(OPS, a, "emit"),
+                    f"Instr::{ctor}: emit arm cannot be evaluated to one word layout (fail closed): {sem_err or sorted(layouts)}")
+            continue
+        operand_words = list(layouts)[0]       # ((field, repr(value)), ...)
+        opnames = sorted({o.name for o in table.values()})
+        # roles of the pushed values: the abstract operands print as m0 (cell), shift<0 / shift>=0 (shift), off.. (target)
+        operand_pushes = list(operand_words)
         for fname in fns:
             key = f"{OPS}|{ctor}|{fname}"
             try:
@@ -607,20 +658,20 @@ def run_bc_fixed(res, ast):
             else:
                 for k in sorted(reads):
                     fld, local = reads[k]
-                    wf, wexpr, _ = operand_pushes[k - 1]
+                    wf, wrole = operand_pushes[k - 1]
                     if fld != wf:
                         errs.append(f"word {k}: written as `{wf}`, read as `{fld}`")
                     want_role = roles[k - 1]
                     got = role_of(ast, fn, local)
                     if want_role == "target":
-                        if int_lit(wexpr) != 0:
+                        if wrole != "target0":
                             errs.append(f"word {k}: branch offset placeholder is not 0")
                         if "target" not in got:
                             errs.append(f"word {k}: not used as the ip offset of the taken branch")
                     else:
-                        wv = path_name(strip_paren(wexpr))
-                        if wv != pvars[k - 1]:
-                            errs.append(f"word {k}: writer pushes `{wv}`, the operand in this position is `{pvars[k - 1]}`")
+                        want_w = {"cond": "cell", "cell": "cell", "shift": "shift"}[want_role]
+                        if wrole != want_w:
+                            errs.append(f"word {k}: writer pushes the instruction's {wrole}, the reader uses this word as the {want_role}")
                         need = {"cond": "cond", "shift": "shift", "cell": "cell"}[want_role]
                         if need not in got:
                             errs.append(f"word {k} (`{local}`): used as {sorted(got)}, its role in Instr::{ctor} is {want_role}")
@@ -647,8 +698,14 @@ def run_bc_fixed(res, ast):
         a = arms.get(ctor)
         if a is None:
             continue
-        sp_ = [p_["pat"]["name"] for p_ in emit["sig"]["inputs"] if p_["t"] == "Arg"]
-        sel = selection_table(ast, a, sp_[2] if len(sp_) == 3 else "safe")
+        sel = {}
+        for neg in (True, False):
+            for safe in (True, False):
+                try:
+                    ws = emitted(ctor, OPERANDS[ctor](neg), safe)
+                    sel[(neg, safe)] = f"{ws[0][1].name}::<_,{','.join(ws[0][1].generics)}>" if ws and isinstance(ws[0][1], OpRef) else "?"
+                except (Unanalysable, Reached) as u:
+                    sel[(neg, safe)] = f"unanalysable: {u}"
         want = {(True, True): f"{l}::<_,true>", (True, False): f"{l}::<_,false>", (False, True): f"{r}::<_,true>", (False, False): f"{r}::<_,false>"}
         res.check(sel == want, "BC-FIXED", f"{OPS}|emit|{ctor}|selection", where(OPS, a, "emit"),
                   f"Instr::{ctor}: op selection by (shift < 0, safe) is {sel}, expected {want}")
@@ -772,7 +829,7 @@ def run_bc_thread(res, ast):
         lim = ast.fn(OPS, "limit")["node"]
         lp = op_params(lim)
         envl = {"__v_cxt": lp[0], "__v_mem": lp[1], "__v_r0": lp[3], "__v_r1": lp[4]}
-        hit = [i_ for i_ in walk_t(lim["body"], "If") if pm.match_stmts(i_["then"]["stmts"],
+        hit = [i_ for i_ in walk_t(pm.inline_helpers(ast, OPS, lim["body"]), "If") if pm.match_stmts(i_["then"]["stmts"],
                "__rest; temps_ptr(__v_cxt).add(0).write(__v_r0); temps_ptr(__v_cxt).add(1).write(__v_r1); (*__v_cxt).context.memory.set_current_ptr(__v_mem); __rest;", envl)]
         res.check(bool(hit), "BC-THREAD", f"{OPS}|limit|spill", where(OPS, lim, "limit"), "the exhausted path of `limit` must spill r0, r1 and mem before returning to the trampoline")
         eo = ast.fn(OPS, "enter_ops")["node"]
